@@ -26,6 +26,8 @@ const (
 	mErrDup  = "err-duplicate"
 	// mNoopOrDup: staleness marker on top of a staleness marker (see classify).
 	mNoopOrDup = "dup-noop-or-err-duplicate"
+	// mErrOldOrOOO: a too-old sample appended with the reject-out-of-order option.
+	mErrOldOrOOO = "err-too-old-or-out-of-order"
 )
 
 type mSeries struct {
@@ -36,6 +38,9 @@ type mSeries struct {
 	// such a sample MAY still be returned; the oracle reports it as a (soft) violation with its
 	// own signature and keeps exploring.
 	delOOO map[int64]map[string]bool
+	// opt: values that may or may not be stored at t where the statement leaves it open
+	// (never reported; used by C02 for commit-time out-of-order under the reject option).
+	opt map[int64]map[string]bool
 	hasInOrder bool
 	inOrderMax int64
 	lastVal    string // canonical value of the newest in-order sample
@@ -53,7 +58,7 @@ func newDBModel(r, w int64) *dbModel {
 func (m *dbModel) get(sk string) *mSeries {
 	s := m.series[sk]
 	if s == nil {
-		s = &mSeries{samples: map[int64]map[string]bool{}, ooo: map[int64]bool{}, delOOO: map[int64]map[string]bool{}}
+		s = &mSeries{samples: map[int64]map[string]bool{}, ooo: map[int64]bool{}, delOOO: map[int64]map[string]bool{}, opt: map[int64]map[string]bool{}}
 		m.series[sk] = s
 	}
 	return s
@@ -68,6 +73,7 @@ type mTxn struct {
 	minValid    int64 // max(headMaxt - R/2, head min valid time)
 	headMinVal  int64
 	rejectOOO   bool
+	forced      bool
 	pend        []mPend
 }
 
@@ -131,6 +137,10 @@ func (tx *mTxn) append(sk string, t int64, val string) string {
 	if c == mOOO && tx.rejectOOO {
 		return mErrOOO
 	}
+	if c == mErrOld && tx.rejectOOO {
+		// Too old AND the caller rejects out-of-order samples: both error classes describe it.
+		return mErrOldOrOOO
+	}
 	switch c {
 	case mInOrder, mNoop, mOOO, mNoopOrDup:
 		tx.pend = append(tx.pend, mPend{sk, t, val})
@@ -150,7 +160,22 @@ func (tx *mTxn) commit() []string {
 			s.store(p.t, p.val, false)
 			s.hasInOrder, s.inOrderMax, s.lastVal = true, p.t, p.val
 		case mOOO:
-			s.store(p.t, p.val, true)
+			if tx.rejectOOO && !tx.forced {
+				// Accepted as in-order at append time, out-of-order only because of an earlier sample
+				// of this transaction, and the caller asked for out-of-order samples to be rejected:
+				// "exactly as if appended separately" allows dropping it; storing it out-of-order is
+				// what an unflagged append would do. Either is accepted.
+				if s.samples[p.t] == nil {
+					if s.opt[p.t] == nil {
+						s.opt[p.t] = map[string]bool{}
+					}
+					s.opt[p.t][p.val] = true
+				} else {
+					s.samples[p.t][p.val] = true
+				}
+			} else {
+				s.store(p.t, p.val, true)
+			}
 		}
 		out = append(out, c)
 	}
@@ -159,6 +184,13 @@ func (tx *mTxn) commit() []string {
 }
 
 func (tx *mTxn) rollback() { tx.pend = nil }
+
+// forceOOO buffers a sample as accepted although the reject option would have refused it
+// (used only to keep exploring behind a known finding).
+func (tx *mTxn) forceOOO(sk string, t int64, val string) {
+	tx.pend = append(tx.pend, mPend{sk, t, val})
+	tx.forced = true
+}
 
 func (s *mSeries) store(t int64, val string, ooo bool) {
 	set := s.samples[t]
